@@ -842,7 +842,8 @@ fn exec_explore(w: &[&str], overlay: &mut HashMap<String, Bytes>, stats: &mut St
                     }
                 };
                 st.bump("bpmap_served");
-                let mut looks: Vec<String> = Vec::new();
+                // the debug id the map reports (for a used sidecar: the sidecar's, not necessarily the text's)
+                let mut looks: Vec<String> = vec![format!("id {}", map.debug_id().breakpad())];
                 for a in &addrs {
                     let Some(a) = a else {
                         let names = catch_unwind(AssertUnwindSafe(|| {
@@ -1062,7 +1063,7 @@ impl Prop for C08 {
         ops.len() == out.len()
             && out.iter().zip(ops).any(|(o, op)| {
                 o.starts_with("ok ") || o.starts_with("sym ") || o.starts_with("line ") || o.starts_with("frames ")
-                    || o == "parsed" || (o == "fine" && !op.starts_with("debugid")) || o == "id-ok" || o.starts_with("served sym") || o.starts_with("served none") || o.starts_with("resp ") || o.starts_with("json ")
+                    || o == "parsed" || (o == "fine" && !op.starts_with("debugid")) || o == "id-ok" || o.starts_with("served id") || o.starts_with("resp ") || o.starts_with("json ")
             })
     }
 }
